@@ -40,6 +40,8 @@ def main():
             os.rename(tgt, keep)
         shutil.rmtree(demo, ignore_errors=True)
         shutil.copytree(os.path.join(sd, "demo"), demo)
+        if os.path.exists(os.path.join(sd, "demo.rs")):       # some demo projects build `../demo.rs`
+            shutil.copy(os.path.join(sd, "demo.rs"), os.path.join(os.path.dirname(demo), "demo.rs"))
         if keep:
             os.rename(keep, tgt)
         release = "--release" in ((meta.get("from_agent") or {}).get("demo_cmd") or "") or "--release" in ((meta.get("confirmed_by_me") or {}).get("demo_cmd") or "")
